@@ -39,6 +39,8 @@ type Fill struct {
 	// Clear: a gradient whose stops are all fully transparent (a path that is drawn, and under
 	// the Src operator clears what it covers).
 	Clear bool `json:"clear,omitempty"`
+	// Edge: constructed so that the gradient's 0 edge runs exactly through pixel centres.
+	Edge bool `json:"edge,omitempty"`
 }
 
 type Path struct {
@@ -516,6 +518,32 @@ func genCase(t *rapid.T) Case {
 		lod := rapid.SampledFrom([][2]ops.F32{{0, h + 1}, {h, inf}, {0, h}, {h + 1, inf}, {0, inf}, {h - 3, h + 40}}).Draw(t, "lodrange")
 		c.Paths[i].LOD = &lod
 	}
+	if c.Relation == "offset" && rapid.IntRange(0, 3).Draw(t, "edge") == 0 {
+		// a colour discontinuity (the 0 edge of a gradient with spread none or repeat) that runs
+		// exactly through pixel centres, under a pixel scale whose reciprocal is not exact (3/8..3):
+		// which side a centre falls on is a matter of rounding, and must not depend on where the
+		// rectangle lies
+		c.ViewBox = [4]ops.F32{-32, -32, 32, 32}
+		c.W = rapid.SampledFrom([]int{24, 48, 96, 192}).Draw(t, "edge.w")
+		c.H = c.W
+		k := 3*rapid.IntRange(0, c.W/3-1).Draw(t, "edge.k") + 1 // centres (k+0.5)*64/W - 32 that are dyadic
+		x0 := (float32(k)+0.5)*64/float32(c.W) - 32
+		a := float32(math.Ldexp(1, -rapid.IntRange(1, 3).Draw(t, "edge.a")))
+		bits := spec.GradientBits{NStops: 2, CBase: 10, NBase: 10, Spread: rapid.SampledFrom([]uint8{0, 3}).Draw(t, "edge.spread")}
+		m := [6]float32{a, 0, -a * x0, 0, a, 0.5}
+		if rapid.Bool().Draw(t, "edge.vertical") {
+			m = [6]float32{0, a, -a * x0, a, 0, 0.5}
+		}
+		blk := []ops.Op{ops.OpSetNSel(10)}
+		for j := 0; j < 6; j++ {
+			blk = append(blk, ops.OpSetNReg(uint8(6-j), false, m[j]))
+		}
+		blk = append(blk, ops.OpSetCSel(10),
+			ops.OpSetCReg(0, true, ops.RGBAv(color.RGBA{0xff, 0, 0, 0xff})), ops.OpSetNReg(0, true, 0),
+			ops.OpSetCReg(0, true, ops.RGBAv(color.RGBA{0, 0, 0xff, 0xff})), ops.OpSetNReg(0, true, 1),
+			ops.OpSetCSel(0), ops.OpSetCReg(0, false, ops.RGBAv(spec.EncodeGradientBits(bits))))
+		c.Paths = append([]Path{{Fill: Fill{Gradient: true, Block: blk, Edge: true}, Ops: []ops.Op{ops.OpStartPath(0, -32, -32), ops.OpDraw(ops.AbsHLineTo, 32), ops.OpDraw(ops.AbsVLineTo, 32), ops.OpDraw(ops.AbsHLineTo, -32), ops.OpDraw(ops.ClosePathEndPath)}}}, c.Paths...)
+	}
 	c.Off = [2]int{rapid.IntRange(0, 40).Draw(t, "ox"), rapid.IntRange(0, 40).Draw(t, "oy")}
 	switch rapid.IntRange(0, 7).Draw(t, "corner") {
 	case 0, 1: // the rectangle starts exactly at the image's own corner
@@ -585,6 +613,9 @@ func TestPixelRelations(t *testing.T) {
 			}
 			if p.LOD != nil {
 				labels = append(labels, "level-of-detail-range-around-the-target-height")
+			}
+			if p.Fill.Edge {
+				labels = append(labels, "gradient-edge-exactly-through-pixel-centres,inexact-reciprocal-scale")
 			}
 			if p.Fill.Clear {
 				labels = append(labels, "gradient-of-fully-transparent-stops")
